@@ -788,6 +788,124 @@ func c15IsPageFn(g *ssa.Function) bool {
 	return len(c13SendSites(g)) > 0
 }
 
+// c15QueryArgOK: v is the value of query parameter `key` built from vals:
+// for "n" strconv.Itoa(x) with x in vals, otherwise a value of vals itself.
+func c15QueryArgOK(key string, v ssa.Value, vals map[ssa.Value]bool) bool {
+	if vals[v] {
+		return true
+	}
+	for _, r := range Roots(v) {
+		if call, ok := r.(*ssa.Call); ok && (CalleeName(call) == "strconv.Itoa" || CalleeName(call) == "strconv.FormatInt") && len(call.Call.Args) > 0 && vals[strip(call.Call.Args[0])] {
+			return true
+		}
+	}
+	return false
+}
+
+// c15QueryFact: "the value is carried by the request's query, or need not be":
+// edges on which the value is absent (string == "" / integer <= 0), and the
+// RawQuery stores reached only after Values.Set(key, value) or over such an edge.
+func c15QueryFact(key string, numeric bool) c13Fact {
+	absent := func(fn *ssa.Function, vals map[ssa.Value]bool) []Edge {
+		if !numeric {
+			return c13FactEdgesOfConds(fn, c13EmptyStringClass(vals))
+		}
+		return c13FactEdgesOfConds(fn, func(cond ssa.Value) (bool, bool) {
+			op, other, ok := c13CmpNorm(cond, vals)
+			if !ok {
+				return false, false
+			}
+			k, isC := c13ConstInt(other)
+			if !isC {
+				return false, false
+			}
+			switch {
+			case op == token.LEQ && k == 0, op == token.LSS && k == 1, op == token.EQL && k == 0:
+				return true, false
+			case op == token.GTR && k == 0, op == token.GEQ && k == 1, op == token.NEQ && k == 0:
+				return false, true
+			}
+			return false, false
+		})
+	}
+	return c13Fact{ID: "query:" + key,
+		Use: func(fn *ssa.Function, vals map[ssa.Value]bool, _ map[ssa.Value]int64) ([]Edge, []ssa.Value) {
+			return absent(fn, vals), nil
+		},
+		Instrs: func(fn *ssa.Function, vals map[ssa.Value]bool) []ssa.Instruction {
+			ct := newCut().Edges(absent(fn, vals)...)
+			n := 0
+			for _, set := range CallsTo(fn, "(net/url.Values).Set", "(net/url.Values).Add") {
+				if k, ok := constString(set.Common().Args[1]); ok && k == key && c15QueryArgOK(key, set.Common().Args[2], vals) {
+					ct.Instr(set.(ssa.Instruction))
+					n++
+				}
+			}
+			var out []ssa.Instruction
+			if n == 0 {
+				return nil
+			}
+			for _, st := range c13FieldStores(fn, "net/url", "URL", "RawQuery", nil) {
+				if MustPass(st, ct) {
+					out = append(out, st)
+				}
+			}
+			return out
+		}}
+}
+
+// c15QueryInputs: the value sets of fn that become query parameter `key`
+// (in fn itself or through a helper): parameter aliases, or all loads of the
+// struct field the value is read from.
+func c15QueryInputs(fn *ssa.Function, key string, depth int) []map[ssa.Value]bool {
+	var out []map[ssa.Value]bool
+	widen := func(v ssa.Value) map[ssa.Value]bool {
+		v = strip(v)
+		set := Aliases(v)
+		if ld, ok := v.(*ssa.UnOp); ok && ld.Op == token.MUL {
+			if fa, ok := ld.X.(*ssa.FieldAddr); ok { // a configuration field: every load of it is the same setting
+				AllInstrs(fn, func(in ssa.Instruction) {
+					if l2, ok := in.(*ssa.UnOp); ok && l2.Op == token.MUL {
+						if f2, ok := l2.X.(*ssa.FieldAddr); ok && f2.Field == fa.Field && types.Identical(f2.X.Type(), fa.X.Type()) {
+							set[l2] = true
+						}
+					}
+				})
+			}
+		}
+		return set
+	}
+	for _, set := range CallsTo(fn, "(net/url.Values).Set", "(net/url.Values).Add") {
+		if k, ok := constString(set.Common().Args[1]); !ok || k != key {
+			continue
+		}
+		v := set.Common().Args[2]
+		for _, r := range Roots(v) {
+			if call, ok := r.(*ssa.Call); ok && (CalleeName(call) == "strconv.Itoa" || CalleeName(call) == "strconv.FormatInt") && len(call.Call.Args) > 0 {
+				v = call.Call.Args[0]
+			}
+		}
+		out = append(out, widen(v))
+	}
+	if depth > 0 {
+		for _, ci := range Calls(fn, func(string) bool { return true }) {
+			call, ok := ci.(*ssa.Call)
+			h := StaticCallee(ci)
+			if !ok || h == nil || !inModule(h) || len(h.Blocks) == 0 || h == fn || len(h.Params) != len(call.Call.Args) {
+				continue
+			}
+			for _, hv := range c15QueryInputs(h, key, depth-1) {
+				for i, p := range h.Params {
+					if hv[p] {
+						out = append(out, widen(call.Call.Args[i]))
+					}
+				}
+			}
+		}
+	}
+	return out
+}
+
 // c15FeedsLastParam: a value of vals becomes the `last` query parameter:
 // Values.Set("last", v) in fn, or in a helper fn hands it to (depth).
 func c15FeedsLastParam(fn *ssa.Function, vals map[ssa.Value]bool, depth int) bool {
@@ -856,7 +974,7 @@ func c15R2(c *Ctx) {
 		RK = "C15.R2.link-parser"
 	)
 	c.Expect(RL, 14) // 3 loops × (url-advances, exit-iff-error, only-no-link-ends, page-call-every-iteration) + 2 × last-first-page-only
-	c.Expect(RP, 18)
+	c.Expect(RP, 23)
 	c.Expect(RK, 3)
 	if c.P.Obj(c13PkgRemote, "errNoLink") == nil {
 		c.LostAnchor(RL, c15NoLink+" (end-of-pages sentinel)")
@@ -1064,6 +1182,20 @@ func c15R2(c *Ctx) {
 		}
 		c.Check(RP, pn+"|end-of-listing-only-from-link-parser", pg.Pos(), okSent,
 			ifelse(okSent, "every return after the exchange whose error may be nil or errNoLink returns the link parser's own error result", whySent))
+		// the pagination parameters reach the request: on every path to the exchange the value was put into the
+		// query that is stored back, or is absent (last == "" / page size <= 0)
+		for _, qp := range []struct {
+			key     string
+			numeric bool
+		}{{"last", false}, {"n", true}} {
+			for _, vals := range c15QueryInputs(pg, qp.key, 2) {
+				ct, _ := c13FactCut(pg, vals, c15QueryFact(qp.key, qp.numeric), 2)
+				ok := (len(ct.instrs) > 0) && MustPass(site.(ssa.Instruction), ct)
+				c.Check(RP, pn+"|query-carries:"+qp.key, site.Pos(), ok,
+					ifelse(ok, "every path to the exchange sets `"+qp.key+"` on the query stored back into the URL, or found the value absent",
+						"the request can be sent without the `"+qp.key+"` parameter although a value was given: the listing starts from the wrong position / ignores the page size"))
+			}
+		}
 		// query of the given URL is preserved (same helper as C13.R4)
 		_, badQ, whyQ := c13QueryStores(pg)
 		okQ := badQ == nil
@@ -1448,6 +1580,14 @@ var c15Mutants = []Mutant{
 	{Name: "empty-tags-page-returns-early", File: "registry/remote/repository.go",
 		Old:    "\tif err := fn(page.Tags); err != nil {\n\t\treturn \"\", err\n\t}\n\n\treturn parseLink(resp)",
 		New:    "\tif len(page.Tags) == 0 {\n\t\treturn \"\", nil\n\t}\n\tif err := fn(page.Tags); err != nil {\n\t\treturn \"\", err\n\t}\n\n\treturn parseLink(resp)",
+		Expect: "C15.R2.page-function"},
+	{Name: "tags-last-guard-flipped", File: "registry/remote/repository.go",
+		Old:    "\tif r.TagListPageSize > 0 || last != \"\" {\n\t\tq := req.URL.Query()",
+		New:    "\tif r.TagListPageSize > 0 || last == \"\" {\n\t\tq := req.URL.Query()",
+		Expect: "C15.R2.page-function"},
+	{Name: "repositories-n-only-with-last", File: "registry/remote/registry.go",
+		Old:    "\tif r.RepositoryListPageSize > 0 || last != \"\" {",
+		New:    "\tif last != \"\" {",
 		Expect: "C15.R2.page-function"},
 	{Name: "link-malformed-ends-listing", File: "registry/remote/utils.go",
 		Old:    "\tif link[0] != '<' {\n\t\treturn \"\", fmt.Errorf(\"invalid next link %q: missing '<'\", link)\n\t}",
